@@ -1201,6 +1201,19 @@ def _module_constants(P):
         ast.fix_missing_locations(m.tree)
 
 
+def _return_expression(body):
+    """the expression a body of returns computes: `return e`, or `if c: return a` followed by (or with an else of) such a body -> `a if c else <rest>`"""
+    if len(body) == 1 and isinstance(body[0], ast.Return) and body[0].value is not None:
+        return body[0].value
+    if body and isinstance(body[0], ast.If) and not any(isinstance(x, ast.NamedExpr) for x in ast.walk(body[0].test)):
+        a = _return_expression(body[0].body)
+        rest = body[0].orelse if body[0].orelse and len(body) == 1 else body[1:] if not body[0].orelse else None
+        b = _return_expression(rest) if rest else None
+        if a is not None and b is not None:
+            return ast.IfExp(test=body[0].test, body=a, orelse=b)
+    return None
+
+
 def _trivial_members(P, anchors):
     """a private property, or method, whose body is a single `return <expression over self and its parameters>` names an expression: `X.member` /
     `X.member(args)` is replaced by that expression with self := X.  For receivers other than self the member name must be defined by exactly one class
@@ -1219,9 +1232,9 @@ def _trivial_members(P, anchors):
                     or fn.args.kwonlyargs or fn.args.defaults or ("property" in decos and params != ["self"]):
                 continue
             body = [s for s in fn.body if not (isinstance(s, ast.Expr) and isinstance(s.value, ast.Constant))]
-            if len(body) != 1 or not isinstance(body[0], ast.Return) or body[0].value is None:
+            e = _return_expression(body)
+            if e is None:
                 continue
-            e = body[0].value
             if any(isinstance(x, (ast.Lambda, ast.Yield, ast.Await, ast.NamedExpr)) for x in ast.walk(e)):
                 continue
             if any(isinstance(x, ast.Attribute) and x.attr == name for x in ast.walk(e)):
